@@ -207,6 +207,19 @@ func famTablesPar(mode string, args []string) error {
 		return tpRecord(args)
 	case "repeat":
 		return tpRepeat(args)
+	case "genfiles":
+		// genfiles <dir> <n>: write n generated inputs, print their paths as JSON
+		if len(args) < 2 {
+			return fmt.Errorf("genfiles <dir> <n>")
+		}
+		n, _ := strconv.Atoi(args[1])
+		var all [][]string
+		for i := 0; i < n; i++ {
+			all = append(all, tpGenFiles(newRand(int64(1000+i)), args[0], i, false))
+		}
+		b, _ := json.Marshal(all)
+		fmt.Println(string(b))
+		return nil
 	}
 	return fmt.Errorf("tablespar: unknown mode %q", mode)
 }
